@@ -14,6 +14,9 @@ pub struct Case {
     pub opts: Opts,
     #[serde(default)]
     pub k2_nudged: u32,
+    /// seeded delay schedule (consumer held back), see C01
+    #[serde(default)]
+    pub delay: Option<(u64, u8)>,
 }
 
 pub struct C02;
@@ -29,7 +32,68 @@ pub fn make_case((mut input, opts): (BbInput, Opts)) -> Case {
         input,
         opts,
         k2_nudged: n,
+        delay: None,
     }
+}
+
+#[cfg(bigtools_verif)]
+fn schedule(d: Option<(u64, u8)>) {
+    use bigtools::utils::verif_hooks as h;
+    match d {
+        Some((seed, intensity)) => {
+            h::set_schedule(seed, intensity as u32);
+            h::set_bias((1 << 4) | (1 << 7) | (1 << 9) | (1 << 11));
+        }
+        None => {
+            h::set_schedule(0, 0);
+            h::set_bias(0);
+        }
+    }
+}
+#[cfg(not(bigtools_verif))]
+fn schedule(_d: Option<(u64, u8)>) {}
+
+/// several chromosomes with > 8 KiB of section data each (see C01::big_chroms)
+fn big_chroms() -> BoxedStrategy<Case> {
+    use proptest::sample::select;
+    (
+        proptest::collection::vec((500usize..1800, any::<u32>()), 2..=4),
+        any::<bool>(),
+        any::<bool>(),
+        select(vec![64u32, 1024, 65535]),
+        select(vec![1u8, 2, 4, 8]),
+        gen::source_kind(),
+        any::<bool>(),
+        proptest::option::weighted(0.7, (any::<u64>(), 30u8..=100)),
+    )
+        .prop_map(|(chroms, compress, inmemory, ips, threads, source, multipass, delay)| {
+            let mut cs = vec![];
+            for (ci, (n, seed)) in chroms.iter().enumerate() {
+                let mut x = *seed as u64 | 1;
+                let mut start = 0u32;
+                let mut entries = Vec::with_capacity(*n);
+                for i in 0..*n {
+                    x ^= x << 13;
+                    x ^= x >> 7;
+                    x ^= x << 17;
+                    start += (x % 4) as u32;
+                    let len = 1 + ((x >> 8) % 40) as u32;
+                    entries.push(BbEntry { s: start, e: start + len, rest: format!("n{}\t{}", i, x % 1000) });
+                }
+                let size = entries.iter().map(|e| e.e).max().unwrap() + 2;
+                cs.push(BbChrom { name: format!("big{}", ci), size, entries });
+            }
+            let mut opts = Opts::default();
+            opts.compress = compress;
+            opts.inmemory = inmemory;
+            opts.items_per_slot = ips;
+            opts.threads = threads;
+            opts.source = source;
+            opts.multipass = multipass;
+            opts.zoom = ZoomSpec::Manual(vec![256, 4096]);
+            Case { input: BbInput { chroms: cs, unused: vec![], autosql: None }, opts, k2_nudged: 0, delay }
+        })
+        .boxed()
 }
 
 pub fn has_overlap(c: &BbChrom) -> bool {
@@ -122,7 +186,11 @@ impl Prop for C02 {
         tier.pick(15_000, 300_000)
     }
     fn strategy(tier: Tier) -> BoxedStrategy<Case> {
-        gen::bb_case(tier, false, true).prop_map(make_case).boxed()
+        prop_oneof![
+            12 => gen::bb_case(tier, false, true).prop_map(make_case),
+            1 => big_chroms(),
+        ]
+        .boxed()
     }
     fn probes() -> Vec<(String, String, Case)> {
         vec![(
@@ -143,6 +211,7 @@ impl Prop for C02 {
                 },
                 opts: Opts::default(),
                 k2_nudged: 0,
+                delay: None,
             },
         )]
     }
@@ -153,7 +222,11 @@ impl Prop for C02 {
         let (max_sections, _depth) = label_shape_bb(input, o, obs);
         obs.label_if(case.k2_nudged > 0, "excluded-K2-nudged");
         let sink = SharedSink::new();
-        if let Err(e) = drive::write_bb(input, o, sink.clone()) {
+        schedule(case.delay);
+        obs.label_if(case.delay.is_some(), "delay-schedule-consumer-held-back");
+        let wr = drive::write_bb(input, o, sink.clone());
+        schedule(None);
+        if let Err(e) = wr {
             obs.label("writer-refused");
             obs.notes.push(format!("writer refused generated input: {}", e));
             return Ok(());
